@@ -15,7 +15,7 @@ func init() {
 	add(&simkit.Check{
 		Property: "C20",
 		Parts: []simkit.Part{
-			{Name: "detsim-c20", Fn: detsim.C20, Shards: true, Runs: map[string]int{"quick": 3000, "thorough": 150000}},
+			{Name: "detsim-c20", Fn: detsim.C20, Shards: true, Runs: map[string]int{"quick": 2000, "thorough": 100000}},
 			{Name: "detsim-c20-procs", Fn: detsim.C20Procs, Shards: true, Runs: map[string]int{"quick": 40, "thorough": 1000}},
 		},
 		Rule:           "one run = generated schema pair (A, B = A after 1-4 edits; 2-4 tables with indexes, checks, foreign keys) + a directory of 2-6 files; operations: diff+plan+DefaultFormatter for sqlite/mysql/postgres, MarshalHCL + EvalHCLBytes + MarshalHCL for the three dialects, MemDir checksum; schedules: 2-4 map-iteration orders at every seamed map-range site (the same bytes are required), one permutation of the declaration order of tables / indexes / foreign keys / checks (the multiset of statements must not change), a tape-scheduled interleaving of all operations cut at call boundaries, a repeat in the same process, and (second part) three fresh processes each under its own map order; distinct = distinct trace hash",
